@@ -57,7 +57,8 @@ RULE = ("SLURM: every sequence of poll reports of length <= 3 (quick) / <= 4 (th
         "with sampled user-option combinations (each of -J/-o/-e absent / '-X v' / '--long=v' / unrecognised forms, other "
         "tokens, --no-requeue), error-file contents and sbatch answers; a raw stream of adversarial sbatch_args strings; "
         "SGE: qacct answers built from accounting records. Non-trivial = at least two polls and a decisive report, or a "
-        "user option present; distinct by (args, reports, error file)")
+        "user option present; distinct by (args, reports, error file). Round 3: half of the job directories already hold files when "
+        "run() starts (a stale _result.pklz, errored or not, _error.pklz, other leftovers), with rerun True/False")
 
 STATES_INTERRUPTED = ["CANCELLED", "TIMEOUT", "PREEMPTED"]
 STATES_ACTIVE = ["RUNNING", "PENDING"]
@@ -67,6 +68,8 @@ ALPHABET = [("queue", None, None), ("acct", "RUNNING", 0), ("acct", "COMPLETED",
 MORE = [("acct", "PENDING", 0), ("acct", "COMPLETED", 137), ("acct", "NODE_FAIL", 0), ("acct", "OUT_OF_MEMORY", 125),
         ("acct", "TIMEOUT", 0), ("acct", "PREEMPTED", 0), ("acct", "CANCELLED", 15), ("acct", "BOOT_FAIL", 1),
         ("queue_loaderr", None, None), ("acct", "DEADLINE", 0), ("acct", "RUNNING", 1)]
+# what the job directory already holds when run() starts (an earlier run being re-run, a crashed run, leftovers)
+STALE = ["none", "none", "result", "result", "result+errored", "error", "result+error", "leftovers", "result+leftovers"]
 ERRFILES = [None, ["Traceback (most recent call last):", "ValueError: bad input", ""],
             ["x", "Exception: boom", ""], ["just one line"], ["a", "nothing special here", ""],
             ["Exception: not the last", "RuntimeError: Exception: nested", ""], ["", ""]]
@@ -208,10 +211,33 @@ class Harness:
         self.work = Path(work)
         self.job = Job(task=Add28(a=1), submitter=Submitter(cache_root=self.work / "cache"), name="add28")
 
-    def run_slurm(self, args, sbatch, reports, errfile):
+    def stage_job_dir(self, stale):
+        """What the job directory holds before run() starts (round 3): nothing, or leftovers of an earlier run."""
+        from pydra.engine.job import save
+        from pydra.engine.result import Result
+        d = self.job.cache_dir
+        shutil.rmtree(d, ignore_errors=True)
+        if not stale or stale == "none":
+            return
+        d.mkdir(parents=True, exist_ok=True)
+        if "result" in stale:
+            try:
+                save(d, result=Result(output=None, runtime=None, errored=("errored" in stale), task=None))
+            except Exception:
+                (d / "_result.pklz").write_bytes(b"stale")
+            if not (d / "_result.pklz").exists():
+                (d / "_result.pklz").write_bytes(b"stale")
+        if "error" in stale:
+            (d / "_error.pklz").write_bytes(b"stale error")
+        if "leftovers" in stale:
+            (d / "out.txt").write_text("old output\n")
+            (d / "_job.pklz").write_bytes(b"old")
+
+    def run_slurm(self, args, sbatch, reports, errfile, stale=None, rerun=False):
         """reports: list of rendered (kind, squeue answer[, sacct stdout]); returns observation dict."""
         from pydra.workers import base, slurm
         worker = slurm.SlurmWorker(sbatch_args=args, poll_delay=0)
+        self.stage_job_dir(stale)
         calls = []
         sq = [r[1] for r in reports]
         sa = [r[2] for r in reports if r[0] == "acct"]
@@ -252,7 +278,7 @@ class Harness:
         base.read_and_display_async = fake
         try:
             try:
-                res = asyncio.run(worker.run(self.job))
+                res = asyncio.run(worker.run(self.job, rerun=rerun))
                 verdict = ["complete"] if res is True else ["other", repr(res)]
             except ScriptExhausted:
                 verdict = ["polling"]
@@ -268,6 +294,7 @@ class Harness:
                 verdict = ["failed", str(e)] if type(e) is Exception else ["other", "%s: %s" % (type(e).__name__, str(e)[:100])]
         finally:
             base.read_and_display_async = orig
+            shutil.rmtree(self.job.cache_dir, ignore_errors=True)
         uid = self.job.uid
         script_dir = str(self.job.cache_root / "slurm_scripts" / uid)
         return dict(calls=calls, verdict=verdict, errpath=state["errpath"], errfile=state["errfile"],
@@ -462,7 +489,7 @@ def slurm_cases(ctx, tmp):
     maxlen = 4 if ctx.tier == "thorough" else 3
     seqs = [list(s) for n in range(0, maxlen + 1) for s in itertools.product(ALPHABET, repeat=n)]
     exhaustive_n = len(seqs)
-    for _ in range(ctx.budget(150, 1000)):
+    for _ in range(ctx.budget(150, 600)):
         seqs.append([rng.choice(ALPHABET + MORE) for _ in range(rng.randrange(1, 8))])
     cases = []
     for c in ctx.corpus():
@@ -476,10 +503,10 @@ def slurm_cases(ctx, tmp):
         r = rng.random()
         sbatch = [0, "Submitted batch job 123\n"] if r < 0.9 else [1, ""] if r < 0.94 else [0, "queued\n"] if r < 0.97 else [0, "job 0042 on cluster 7\n"]
         cases.append(dict(items=items, args=render_items(items), sbatch=sbatch, reports=[list(x) for x in reports],
-                          errfile=rng.choice(ERRFILES)))
+                          errfile=rng.choice(ERRFILES), stale=rng.choice(STALE), rerun=rng.random() < 0.5))
     frag = ["-J", "--job-name=", "-o", "--output=", "-e", "--error=", " ", "  ", "x", "a-e", "my-J", "=", "--no-requeue", "-e ", "-J x",
             os.path.join(tmp, "r-%j.err"), "\t", "--x--error=y", "-N 2"]
-    for _ in range(ctx.budget(80, 500)):
+    for _ in range(ctx.budget(80, 300)):
         args = "".join(rng.choice(frag) for _ in range(rng.randrange(1, 8))).strip()
         cases.append(dict(items=None, args=args, sbatch=[0, "Submitted batch job 123\n"],
                           reports=[list(rng.choice(ALPHABET)) + [rng.choice(FORMS)] for _ in range(rng.randrange(0, 4))], errfile=rng.choice(ERRFILES)))
@@ -516,8 +543,11 @@ def run(ctx):
         for case in cases:
             pairs = normalise_reports(case["reports"])
             rendered = [p[1] for p in pairs]
-            obs = h.run_slurm(case["args"], case["sbatch"], rendered, case["errfile"])
+            obs = h.run_slurm(case["args"], case["sbatch"], rendered, case["errfile"], stale=case.get("stale"), rerun=case.get("rerun", False))
             dist["slurm_cases"] += 1
+            dist["job_dir_with_stale_result"] = dist.get("job_dir_with_stale_result", 0) + ("result" in (case.get("stale") or ""))
+            dist["job_dir_with_other_leftovers"] = dist.get("job_dir_with_other_leftovers", 0) + (
+                (case.get("stale") or "none") not in ("none",) and "result" not in case.get("stale"))
             for r in case["reports"]:
                 if r[0] in ("acct", "garbage") and len(r) > 3:
                     dist["raw_forms"][r[3]] = dist["raw_forms"].get(r[3], 0) + 1
@@ -593,7 +623,7 @@ def run(ctx):
         # ---- SGE
         qenc, qkeep = [], []
         rng = ctx.rng
-        for _ in range(ctx.budget(150, 1000)):
+        for _ in range(ctx.budget(150, 600)):
             a1, a2 = gen_qans(rng), gen_qans(rng)
             verdict, ncalls = h.run_sge_verify(dict(a1), dict(a2))
             exp_calls = 2 if not a1["lines"] else 1
@@ -650,7 +680,7 @@ def replay(ctx, payload):
             return
         lists = live_lists()
         pairs = normalise_reports(case["reports"])
-        obs = h.run_slurm(case["args"], case["sbatch"], [p[1] for p in pairs], case["errfile"])
+        obs = h.run_slurm(case["args"], case["sbatch"], [p[1] for p in pairs], case["errfile"], stale=case.get("stale"), rerun=case.get("rerun", False))
         print("implementation: sbatch", obs["calls"][0], "verdict", obs["verdict"], "commands", [c[0] for c in obs["calls"][1:]])
         extra = EXTRA_TMPL % tuple(coqio.lst([coqio.string(s) for s in lists[k]]) for k in ("requeue_verify", "active", "requeue_run"))
         print("model:", model_value(ctx, extra, case, obs, "replay"))
